@@ -528,8 +528,10 @@ def oracle_c15(sc, res):
                                               f"after stopChild({op['stops']}): actor {iid} has status {status}"))
             if real in o["actors"]:
                 vios.append(Violation("C15", "stopchild-still-registered", sig0, f"after stopChild: {real} still in the children map"))
-            if real in o["system_live"].values():
-                vios.append(Violation("C15", "stopchild-still-in-system", sig0, f"after stopChild: {real} still in the system registry"))
+            left = [v_ for v_ in o["system_live"].values() if v_ == real or str(v_).startswith(real + ":")]
+            if left:
+                vios.append(Violation("C15", "stopchild-still-in-system", dict(sig0, descendant=left[0] != real),
+                                      f"after stopChild({op['stops']}): {left} still in the system registry"))
             respawned = set()
             for r in res.trace:
                 if r[SEQ] <= obs[0][SEQ]:
